@@ -11,7 +11,8 @@ props_for() {
     asyncbufio/*) echo "C07";; *) echo "";;
   esac
 }
-for p in "$1"/*.diff; do
+dir=$(realpath "$1")
+for p in "$dir"/*.diff; do
   n=$(basename $p .diff)
   wt=/tmp/benignwt-$n
   git -C /repo worktree remove --force $wt >/dev/null 2>&1
